@@ -55,6 +55,7 @@ PROPS = {
     'C11': {
         'level': 'proof',
         'kani': True,
+        'native': True,
         'explanation': 'Breakpoints::{new,get,insert,remove,with_orig,len,is_empty} are proved against the data-structure invariant bp_wf (strictly '
                        'increasing addresses) and a whole-set postcondition (address set after insert/remove, other entries preserved) with loop '
                        'invariants and two induction lemmas; check_interrupts is proved to pause (status Wait, remember the address) exactly when the '
@@ -148,6 +149,7 @@ PROPS = {
     'C15': {
         'level': 'proof',
         'kani': True,
+        'native': True,
         'explanation': 'eval_inner is proved: errors and refused instructions (BR*, RTI, HALT, unknown traps) leave the machine untouched; otherwise the '
                        'machine does exactly step_spec of the encoding of an allowed statement with resolved labels, numbered pc-orig; the instruction '
                        'handed to the VM can never take an error exit (never ends the session); composition lemma lemma_eval_label_target proves that '
@@ -158,6 +160,7 @@ PROPS = {
     'C17': {
         'level': 'proof',
         'kani': False,
+        'native': True,
         'explanation': 'Address/index arithmetic of the debugger\'s view: get_source_statement(a) is Some(ast[a-orig]) exactly for orig <= a < orig+len; '
                        'resolve_symbol_address(name) == table[name]-1; resolve_label == orig + index + offset inside user space (offs_spec); parse binds '
                        'every prefix label to the number of the statement it marks (verif_label_insert: line == current line; lines_ok: ast[i].line == i+1); '
@@ -168,6 +171,7 @@ PROPS = {
     'C18': {
         'level': 'proof',
         'kani': True,
+        'native': True,
         'explanation': 'Run time: RunState::stack is proved to reach exit(1) exactly when the flag is off (before any state change) and to execute '
                        'step_stack otherwise; run_command: `step out` availability equals the flag as coded. Assembly time: Kani harness on '
                        'check_instruction with the flag stubbed symbolic (bounded by identifier length). Source scan: the flag is read nowhere else.',
@@ -176,6 +180,7 @@ PROPS = {
     'C19': {
         'level': 'other',
         'kani': False,
+        'native': True,
         'explanation': 'reset_state is proved to leave the symbol table empty; every assembler function under contract is, by construction of the '
                        'verified text, a function of its explicit arguments plus the lifted table parameter (R11) and features::stack(); Air::new is '
                        'proved empty; a source scan shows SYMBOL_TABLE is the only process-global in the assembler files and is touched only inside '
